@@ -144,6 +144,25 @@ func (t *DateTime) Date() Date {
 	)
 }
 
+// Returns the date component, or an error when the year
+// does not fit in the year range of `Date`.
+func (t *DateTime) DateErr() (Date, Value) {
+	year := t.Year()
+	if year > DateMaxYear || year < DateMinYear {
+		return Date{}, Ref(
+			Errorf(
+				DateInvalidYearErrorClass,
+				"year %d is out of range %d...%d",
+				year,
+				DateMinYear,
+				DateMaxYear,
+			),
+		)
+	}
+
+	return t.Date(), Undefined
+}
+
 func (t *DateTime) Time() Time {
 	return MakeTime(
 		t.Hour(),
